@@ -152,6 +152,8 @@ class Stream(pydyf.Stream):
             'AIS': 'false',
         })
         self.set_state(alpha_state)
+        # The new state sets ca to 1
+        self._current_alpha = None
         return alpha_stream
 
     def set_blend_mode(self, mode):
